@@ -96,7 +96,7 @@ def explore(ctx, cases=None):
     quick = ctx.tier == "quick"
     b = build.build("plain")
     tr_ok, classes = pl.regen(ctx, b)
-    proofs_ok = ctx.lean_props("C01", extra_modules=["Ecpint.Props.C01a", "Ecpint.Props.C01b", "Ecpint.Props.C01c"]) if tr_ok else False
+    proofs_ok = ctx.lean_props("C01", extra_modules=["Ecpint.Props.C01a", "Ecpint.Props.C01b", "Ecpint.Props.C01c", "Ecpint.Props.C01d", "Ecpint.Props.C01e"]) if tr_ok else False
     drv = pl.pair_driver(b)
     maxl = 5
     try:
@@ -148,11 +148,14 @@ def explore(ctx, cases=None):
             pl.run_model([f[0] for f in fails[:40]], sws)
         for r, o, err, tol in fails:
             fid, table = attribute(r, o["v"], tol)
+            if fid is None and r.warn[0] > 0:
+                # the library itself reported that its type-1 (local part) quadrature did not converge on this input and carried on
+                fid = "type1-quadrature-unconverged"
             if not proofs_ok or corr_bad:
                 fid = None      # the model's counterfactuals say nothing about the code when model and code disagree
             i = max(range(len(r.vals)), key=lambda j: abs(r.vals[j] - o["v"][j]))
             out.append({"case": r.case, "request": pl.fmt_case(r.case), "error": err, "allowed": tol, "block_max": r.maxabs(), "worst_element": i,
-                        "returned": r.vals[i], "exact": o["v"][i], "attributed_to": fid, "counterfactual_errors": table,
+                        "returned": r.vals[i], "exact": o["v"][i], "attributed_to": fid, "library_reported_unconverged_quadratures": list(r.warn), "counterfactual_errors": table,
                         "what": "block (LA=%d, LB=%d, ECP L=%d, %s) deviates from the defining integral by %.3g (allowed %.3g; element %d: returned %r, integral %r)" % (
                             r.case["A"]["l"], r.case["B"]["l"], max(p[1] for p in r.case["ecp"]["prims"]), "/".join(r.case.get("kind", [])), err, tol, i, r.vals[i], o["v"][i])})
     for r in nonfinite:
